@@ -174,7 +174,9 @@ def brokerVerdicts (pre : Server) (ws : List String) (core flags : String) : Lis
       match (fieldOf p "ta=").bind (·.toNat?) with
       | some a => if p.startsWith "PUB:" && a > c.tam then
           -- a resumed session's stored packets are resent verbatim, alias included (F24b)
-          [fail "C24" (if ws.head? == some "bk.release" || ws.head? == some "bk.conn" then "F24b" else "-")
+          -- (also when the stored record of a deferred copy, shaped under an earlier connection's maximum, is released)
+          let stored := c.inflight.any fun m => m.alias == a && some (toHex m.payload) == fieldOf p "p="
+          [fail "C24" (if ws.head? == some "bk.release" || ws.head? == some "bk.conn" || stored then "F24b" else "-")
             s!"c{n}: alias {a} above the client's Topic Alias Maximum {c.tam}"] else []
       | none => []
   let perOp : List String := match ws with
